@@ -148,7 +148,11 @@ class Authenticator:
             throttle_amount = self.throttle_roles.get("unauthenticated", 0)
         else:
             throttle_amount = max(
-                self.throttle_roles.get(role, 0) for role in auth_token.get("roles", [])
+                (
+                    self.throttle_roles.get(role, 0)
+                    for role in auth_token.get("roles", [])
+                ),
+                default=0,
             )
         return throttle_amount
 
